@@ -14,6 +14,7 @@ INVARIANT GoodbyeAtMostOncePerSession
 INVARIANT CallbackOrder
 INVARIANT JoinedImpliesTransport
 INVARIANT ApiFailsFastAfterEnd
+INVARIANT AcksOnlyWhenAnnounced
 INVARIANT AtMostOneTerminal
 INVARIANT TerminalOnlyForInvoked
 INVARIANT ExactlyOneTerminalWhileUp
